@@ -204,7 +204,9 @@ fn compare(ctx: &Ctx, beh: &Value, reply: &Value) {
             }
         };
         cmp("span", "replace0", &case["r0"], r(1));
-        cmp("group", "replace2", &case["rg"], r(2));
+        if case["capdef"] != false {
+            cmp("group", "replace2", &case["rg"], r(2));
+        }
         cmp("tok", "tokenize", &case["tok"], strip_iter_meta(&r(3)));
         let exp_ana = &case["ana"];
         let got_ana = strip_iter_meta(&r(4));
@@ -304,6 +306,8 @@ pub fn main(args: &[String]) -> i32 {
         "unspec_cases": st.unspec_cases, "indefinite_cases": st.indefinite_cases,
         "nontrivial": st.nontrivial, "samples": st.samples,
         "confirmed_hangs": pool::CONFIRMED_HANGS.load(std::sync::atomic::Ordering::SeqCst),
+        "fault_jobs": pool::FAULT_JOBS.load(std::sync::atomic::Ordering::SeqCst),
+        "skipped_jobs": pool::SKIPPED_JOBS.load(std::sync::atomic::Ordering::SeqCst),
     });
     if std::fs::write(&out_path, serde_json::to_string_pretty(&out).unwrap()).is_err() {
         eprintln!("cannot write {}", out_path);
